@@ -56,9 +56,12 @@ def verify(seed):
 
 def main():
     seeds = []
+    only_k = os.environ.get("SEED_K")
     for pid in sorted(os.listdir(INC)):
+        if not re.match(r"C\d\d$", pid):
+            continue
         for k in sorted(os.listdir(os.path.join(INC, pid))):
-            if not sys.argv[1:] or pid in sys.argv[1:]:
+            if (not sys.argv[1:] or pid in sys.argv[1:]) and (not only_k or k == only_k) and os.path.exists(os.path.join(INC, pid, k, "patch.diff")):
                 seeds.append((pid, k))
     for pid, k in seeds:
         wt = "/tmp/sw-%s-%s" % (pid, k)
